@@ -126,14 +126,19 @@ def _replace_returns(body, mk):
 def _inline_call(methods, call, how, target, depth, stop=(), ho_only=False):
     """-> list of statements replacing the statement that contains `call`, or None"""
     f = call.func
-    if not (isinstance(f, ast.Attribute) and isinstance(f.value, ast.Name) and f.value.id == 'self' and f.attr in methods
-            and f.attr.startswith('_') and not f.attr.startswith('__')) or f.attr in stop:
-        return None
-    if ho_only and not any(isinstance(a, ast.Attribute) and isinstance(a.value, ast.Name) and a.value.id == 'self' and a.attr in methods
-                           for a in list(call.args) + [k.value for k in call.keywords]):
-        return None
-    callee = methods[f.attr]
-    params = [a.arg for a in callee.args.args][1:]
+    if isinstance(f, ast.Name) and ('func:' + f.id) in methods and f.id.startswith('_') and not f.id.startswith('__') and f.id not in stop:
+        # private module-level helper
+        callee = methods['func:' + f.id]
+        params = [a.arg for a in callee.args.args]
+    else:
+        if not (isinstance(f, ast.Attribute) and isinstance(f.value, ast.Name) and f.value.id == 'self' and f.attr in methods
+                and f.attr.startswith('_') and not f.attr.startswith('__')) or f.attr in stop:
+            return None
+        if ho_only and not any(isinstance(a, ast.Attribute) and isinstance(a.value, ast.Name) and a.value.id == 'self' and a.attr in methods
+                               for a in list(call.args) + [k.value for k in call.keywords]):
+            return None
+        callee = methods[f.attr]
+        params = [a.arg for a in callee.args.args][1:]
     if callee.args.vararg or callee.args.kwarg or len(call.args) > len(params):
         return None
     bound = {}
@@ -280,3 +285,8 @@ def resolve_higher_order(model, cls):
             fi.node = new
             changed.append(name)
     return changed
+
+
+def flatten_function(module_funcs, fn, depth=3, stop=()):
+    """flatten() for a module-level function: private module-level helpers (`_h(...)`) are inlined"""
+    return flatten({'func:' + k: v for k, v in module_funcs.items()}, fn, depth, stop)
